@@ -315,6 +315,9 @@ func (cr *classResolver) classOf1(v ssa.Value) classSet {
 		}
 		sites := cr.w.callers[fn]
 		for _, site := range sites {
+			if site.Parent().Synthetic != "" {
+				continue
+			}
 			args := site.Common().Args
 			if site.Common().IsInvoke() {
 				// receiver is not in Args
